@@ -1,14 +1,6 @@
-mod adapt;
-mod diff;
-mod harness;
-mod lintexp;
-mod props;
-mod run;
-mod walk;
-
-use harness::{Config, Tier};
 use std::path::PathBuf;
-use std::sync::Arc;
+use vcheck::harness::{Config, Tier};
+use vcheck::props;
 
 fn usage() -> ! {
     eprintln!(
@@ -25,6 +17,10 @@ fn main() {
         usage();
     }
     let id = args[1].to_uppercase();
+    if id == "DICT" {
+        print!("{}", vcheck::fuzzapi::dictionary());
+        return;
+    }
     if id == "C10CHILD" {
         let seed: u64 = args.get(2).and_then(|s| s.parse().ok()).unwrap_or(0);
         let n: usize = args.get(3).and_then(|s| s.parse().ok()).unwrap_or(0);
@@ -93,7 +89,3 @@ fn main() {
     std::process::exit(code);
 }
 
-#[allow(dead_code)]
-pub fn run_prop<P: harness::Prop + 'static>(p: P, cfg: Config) -> i32 {
-    harness::run(Arc::new(p), cfg)
-}
